@@ -83,6 +83,7 @@ def check(prog, rep, tier):
     rep.rule("C11.file-writers", "after creation only OR-stores into the mapping and the slot write touch the file", floor=1)
     rep.rule("C11.mutators-sync", "every public mutator of persisted state reaches __update", floor=1)
     rep.rule("C11.path-provenance", "paths handed to open / copyfile / _load are the resolved path, without lossy projection", floor=4)
+    rep.rule("C11.creation-truncates", "every open-for-writing reached from the constructor discards what the path held before (mode w/x, O_TRUNC/O_EXCL, or an explicit truncate to 0)", floor=1)
     rep.rule("C11.reload-count", "reopening restores the stored element count", floor=1)
     rep.trust("OS file semantics: a flushed mmap store and a flushed 8-byte write reach the file; atomicity of that write is not claimed")
     upd = prog.method(CTX, "__update")
@@ -321,6 +322,53 @@ def check(prog, rep, tier):
                 "unlinked one - later adds and the close no longer reach the file", badmv[1].where())
     else:
         rep.ok("C11.path-provenance", f"{CTX}: no rename/replace/unlink reachable without a resolved own-file guard ({nmv} such call(s))")
+    # ---------------------------------------------------------------- (e3) creation starts from an empty file
+    # "the file equals the export of the same history" starts with "a new filter's file is an empty export": bytes that were at
+    # the path before must not survive.  Decided on the open calls the constructor reaches (helpers inlined).
+    creators, keepers = {}, {}
+    f = prog.method(CTX, "__init__")
+    for p in paths(prog, CTX, f, inline="deep"):
+        zeroed = any(e.kind == "call" and e.name in ("ftruncate", "truncate") and e.args and strip_epochs(e.args[-1]) == ("c", 0) for e in p.events)
+        for e in p.events:
+            if e.kind != "call" or e.d.get("inlined"):
+                continue
+            fn = e.d.get("fn")
+            key = e.where()
+            if e.name == "open" and fn is not None and fn[0] == "ext" and fn[1] == "os":
+                flags = e.args[1] if len(e.args) > 1 else None
+                names = {n[2] for n in walk(flags) if n[0] == "ext" and n[1] == "os"} if flags is not None else set()
+                if not names & {"O_WRONLY", "O_RDWR", "O_APPEND"}:
+                    continue
+                if names & {"O_TRUNC", "O_EXCL"} or zeroed:
+                    creators[key] = e
+                else:
+                    keepers[key] = (e, "os.open(" + " | ".join(sorted(names)) + ") without O_TRUNC")
+            elif e.name == "open" and (fn is None or fn[0] in ("g", "m")):
+                args = list(e.args)
+                mode = None
+                kw = dict(e.d.get("kw") or ())
+                if e.recv is not None and fn is not None and fn[0] == "m":
+                    mode = args[0] if args else kw.get("mode")
+                else:
+                    mode = args[1] if len(args) > 1 else kw.get("mode")
+                if mode is None or mode[0] != "c" or not isinstance(mode[1], str):
+                    continue
+                m = mode[1]
+                if "w" in m or "x" in m:
+                    creators[key] = e
+                elif "a" in m and not zeroed:
+                    keepers[key] = (e, f"open(..., {m!r}) appends to what the path already holds")
+            elif e.name in ("write_bytes", "write_text") and e.recv is not None:
+                creators[key] = e
+    if keepers:
+        e, why = sorted(keepers.items())[0][1]
+        rep.bad("C11.creation-truncates", f"{CTX}.__init__", why,
+                f"the constructor reaches {why}: a filter created on a path that already holds a file starts with that file's bytes inside its bit array "
+                "- the new file is not an empty export and a reopen reports keys never added", e.where())
+    elif not creators:
+        pass  # how a new file is created is not recognised: the rule's floor turns this into "undecided" (exit 2), never a silent pass
+    else:
+        rep.ok("C11.creation-truncates", f"{CTX}.__init__: {len(creators)} creating open(s), each truncating")
     # ---------------------------------------------------------------- (f) reload
     ld = prog.method(CTX, "_load")
     okr = True
@@ -371,6 +419,9 @@ MUTANTS = [
     Mutant("D12 re-introduced: clear without sync", _B, del_stmt("BloomFilterOnDisk", "clear", "self.__update()"), rule="C11.mutators"),
     Mutant("export truncates the file to the bit array", _B, insert_stmt("BloomFilterOnDisk", "export", "self.__file_pointer.truncate(self.bloom_length)"), rule="C11.file-writers"),
     Mutant("resolve_path memoised with lru_cache", "utilities.py", _decorate("resolve_path", "lru_cache(maxsize=256)"), rule="C11.path"),
+    Mutant("creation opens the file for appending", _B, replace_expr("BloomFilterOnDisk", "_load_init", "open(self._filepath, 'wb')", "open(self._filepath, 'ab')"), rule="C11.creation-truncates"),
+    Mutant("creation through os.open without O_TRUNC", _B, replace_expr("BloomFilterOnDisk", "_load_init", "open(self._filepath, 'wb')", "os.fdopen(os.open(self._filepath, os.O_WRONLY | os.O_CREAT), 'wb')"), rule="C11.creation-truncates"),
+    Mutant("creation through os.open with O_TRUNC", _B, replace_expr("BloomFilterOnDisk", "_load_init", "open(self._filepath, 'wb')", "os.fdopen(os.open(self._filepath, os.O_WRONLY | os.O_CREAT | os.O_TRUNC), 'wb')"), expect="silent"),
     Mutant("close guard negated", _B, replace_expr("BloomFilterOnDisk", "close", "self.__file_pointer is not None and (not self.__file_pointer.closed)", "not (self.__file_pointer is not None and (not self.__file_pointer.closed))"), rule="C11.write-order"),
     Mutant("close: file closed before the final sync", _B, replace_stmt("BloomFilterOnDisk", "close", "self.__update()", "self._bloom.close()\nself.__update()"), rule="C11.write-order"),
 ]
